@@ -165,6 +165,16 @@ Theorem C03_segmented_eq_monolithic :
 Proof. exact segmented_eq_monolithic. Qed.
 Print Assumptions C03_segmented_eq_monolithic.
 
+(* the call executed by the tie also follows angular tilt carried by the fields (per-segment tilts: every
+   segment is propagated into its own shifted chip, Model/Segment.v:ang_shift); on wavefronts whose fields
+   carry no tilt it is the call of the theorem above *)
+Theorem C03_tilt_aware_call_without_tilt :
+  forall (S : Scalar) (sq : Qc -> S) (ps : list (plane S)) (w w1 : pwf S) dur duc shape pshape os,
+  chain_multiply ps w = Ok w1 -> (forall f, In f (pw_data w1) -> ftilt f = []) ->
+  chain_propagate_tilted sq ps w dur duc shape pshape os = chain_propagate sq ps w dur duc shape pshape os.
+Proof. exact chain_propagate_tilted_untilted. Qed.
+Print Assumptions C03_tilt_aware_call_without_tilt.
+
 (* non-vacuity: a 3x4 aperture over Z split into two segments with overlapping bounding boxes, against its
    monolithic description.  Both constructors succeed, the slices are as stated, both multiplications succeed,
    the segmented result holds two overlapping fields, the monolithic one a single field, and they render to the
